@@ -129,7 +129,7 @@ Print Assumptions c08_history_sync_rules.
 (** every LSF callback in every history carries bytes whose M17 CRC is zero *)
 Theorem c08_lsf_callbacks_crc_valid : forall (h : list input) (s : fd_state) (k : nat) (o : obs) (cb : callback), fd_hid_ok s ->
   nth_error (fst (fd_run s h)) k = Some o -> In cb (o_cbs o) -> cb_type cb = FLsf -> N.eqb (crc30 (cb_bytes cb)) 0 = true.
-Proof. exact fd_lsf_callbacks_crc_valid. Qed.
+Proof. exact fd_lsf_callbacks_crc_valid'. Qed.
 Print Assumptions c08_lsf_callbacks_crc_valid.
 
 (** non-vacuity: fd_init satisfies the well-formedness hypothesis; a dirtied decoder differs from it only in hidden parts *)
@@ -143,18 +143,4 @@ Example c08_example_packet_history : fd_example_packet_ok = true.
 Proof. vm_compute. reflexivity. Qed.
 (* ... in which the hypothesis of c08_packet_only_after_packet_lsf holds at k = 2 *)
 Example c08_packet_emit_instance : fd_at packet_emit ex_packet_history fd_init 2.
-Proof.
-  assert (H : fd_example_packet_ok = true) by (vm_compute; reflexivity).
-  unfold fd_example_packet_ok in H.
-  destruct (fst (fd_run fd_init ex_packet_history)) as [|[[[m0 r0] c0] l0] [|[[[m1 r1] c1] l1] [|[[[m2 r2] c2] l2] [|? ?]]]] eqn:E;
-    try discriminate H.
-  destruct m0; try discriminate H. destruct r0; try discriminate H. destruct c0 as [z0|]; try discriminate H.
-  destruct z0; try discriminate H. destruct l0 as [|cb0 [|? ?]]; try discriminate H.
-  destruct m1; try discriminate H. destruct r1; try discriminate H. destruct c1 as [z1|]; try discriminate H.
-  destruct z1; try discriminate H. destruct l1 as [|cb1 [|? ?]]; try discriminate H.
-  destruct m2; try discriminate H. destruct r2; try discriminate H. destruct c2 as [z2|]; try discriminate H.
-  destruct z2; try discriminate H. destruct l2 as [|cb2 [|? ?]]; try discriminate H.
-  unfold fd_at, at_. rewrite E. eexists _, _. split; [reflexivity|]. split; [reflexivity|].
-  split; [reflexivity|]. exists cb2. split; [left; reflexivity|].
-  destruct (cb_type cb0), (cb_type cb1), (cb_type cb2); try reflexivity; rewrite ?andb_false_r in H; discriminate H.
-Qed.
+Proof. apply (at_of_bool packet_emit packet_emit_b packet_emit_b_ok). vm_compute. reflexivity. Qed.
